@@ -69,10 +69,10 @@ def check_case(case):
     cut_by_session = 0
     m0 = sim.markets[0]
     for kind, kw in A.items:
-        if kind == "log.direct" and isinstance(kw["log"], MarketStepBeginLog):
-            mk = kw["log"].market
+        if kind == "log.direct" and kw["log_type"] == "MarketStepBeginLog":
+            mk = sim.id2market[kw["market_id"]]
             t = kw["times"][0]
-            ses = kw["log"].session.session_id
+            ses = kw["session_id"]
             if mk is m0 and ses != cur_session:
                 cur_session = ses
                 for mid in halted_until:
